@@ -97,6 +97,12 @@ v('C07', 'fire', KA, 'cho_solve((L, True), HP', 'cho_solve((L, False), HP')
 v('C07', 'fire', KA, 'S = HP @ H.T + R', 'S = HP @ H.T')
 v('C07 C19', 'fire', KA, 'K = cho_solve((L, True), HP, overwrite_b=True).T', 'K = cho_solve((L, True), P, overwrite_b=True).T')
 v('C07', 'silent', KA, 'U = np.eye(len(x)) - K.dot(H)', 'U = np.identity(len(x)) - K @ H')
+v('C03', 'fire', 'sim.py', 'rn, _, _ = earth.principal_radii(np.rad2deg(lat), alt)', '_, rn, _ = earth.principal_radii(np.rad2deg(lat), alt)', 'initial-position form: latitude integrated with the east radius')
+v('C03', 'fire', 'sim.py', 'rn, _, _ = earth.principal_radii(np.rad2deg(lat), alt)', 'rn, _, _ = earth.principal_radii(lat, alt)', 'initial-position form: radians handed to principal_radii')
+v('C03', 'fire', 'sim.py', 'VU_spline = CubicSpline(time, -velocity_n[:, 2])', 'VU_spline = CubicSpline(time, velocity_n[:, 2])', 'initial-position form: altitude integrates +VD')
+v('C03', 'fire', 'sim.py', 'lla[:, 1] = lon0 + np.rad2deg(lon_spline(time))', 'lla[:, 1] = lon0 + lon_spline(time)', 'initial-position form: longitude in radians')
+v('C03', 'fire', 'sim.py', 'lat_new = lat0 + lat_spline(time)', 'lat_new = lat + lat_spline(time)', 'initial-position form: iteration accumulates')
+v('C03', 'silent', 'sim.py', 'MAX_ITER = 3', 'MAX_ITER = 5', 'more Picard iterations')
 _W_OLD = """    result = angle % 360
     if is_pandas or result.ndim > 0:
         result[result < -180] += 360
